@@ -655,12 +655,14 @@ func zzC06Deviation(v *zzC06Vec, q zzC06Query, cased bool, g *zzC06Got) (dev str
 		}
 	}
 
-	if vc, ok := v.VerdC[k]; cased && ok && zzC06Admissible(vc.Outs, g) {
-		return "case"
-	}
-
 	if outs, ok := v.VerdK[k]["all"]; ok && zzC06Admissible(outs, g) {
 		return "all"
+	}
+
+	// Only what no combination of the other deviations explains is put down
+	// to the letter case.
+	if vc, ok := v.VerdC[k]; cased && ok && zzC06Admissible(vc.Outs, g) {
+		return "case"
 	}
 
 	return ""
